@@ -84,6 +84,10 @@ IntegralFrom(es, sig, i, a, b, perTime) ==
        IN RAdd(w, IntegralFrom(es, sig, i + 1, a, b, perTime))
 Integral(es, sig, a, b, perTime) == IntegralFrom(es, sig, 1, RInt(a), RInt(b), perTime)
 
+(* physical length of one tick in seconds (cfg.tick = <<num, den>>, chosen by the harness; one day if absent): *)
+(* only per-time sums of data in m/s depend on it                                                             *)
+TickSeconds(cfg) == IF "tick" \in DOMAIN cfg THEN RNorm(cfg.tick[1], cfg.tick[2]) ELSE RInt(86400)
+
 (* what the adapter has to return for a pull at t; p0 = previous pull       *)
 (* {"free"}: the statement does not fix the value (first pull, p0 = p1)     *)
 Def(cfg, es, p0, t) ==
@@ -93,7 +97,7 @@ Def(cfg, es, p0, t) ==
     [] cfg.kind = "step"   -> StepDef(es, cfg.sig, t)
     \* per-time data in m/s (pay = "flux"): times are days, "units multiplied by time and reduced" gives metres
     [] cfg.kind = "sum"    -> LET v == Integral(es, cfg.sig, p0, t, cfg.pt)
-                              IN IF cfg.pt /\ cfg.pay = "flux" THEN RMul(v, RInt(86400)) ELSE v
+                              IN IF cfg.pt /\ cfg.pay = "flux" THEN RMul(v, TickSeconds(cfg)) ELSE v
     [] cfg.kind = "avg"    -> RDiv(Integral(es, cfg.sig, p0, t, TRUE), RInt(t - p0))
 
 Asserted(cfg, st, t) == cfg.kind # "stack" /\ (~IsInteg(cfg) \/ (st.npull > 0 /\ st.prev < t))
